@@ -70,6 +70,31 @@ func (c *Ctx) primitiveSweep(maxP int) {
 	for s := 0; s <= maxP*2; s++ {
 		c.sidesFamily(s)
 	}
+	// extrusion of a shape along a path: path lengths 0..6 (fewer than 2 are rejected), shape sizes 0..6, open and closed
+	for pl := 0; pl <= 6; pl++ {
+		for sd := 0; sd <= 6; sd++ {
+			for cl := 0; cl <= 1; cl++ {
+				pl, sd, cl := pl, sd, cl
+				shape := make([]vector2.Float64, sd)
+				for j := range shape {
+					a := 2 * math.Pi * float64(j) / float64(sd)
+					shape[j] = vector2.New(math.Cos(a), math.Sin(a))
+				}
+				path := make([]vector3.Float64, pl)
+				p := vector3.Zero[float64]()
+				for j := range path {
+					p = p.Add(vector3.New(float64(c.Rng.Intn(3)), 1+float64(c.Rng.Intn(3)), float64(c.Rng.Intn(3)-1)))
+					path[j] = p
+				}
+				c.gen("extrude_shape", fmt.Sprintf("%d %d %d", pl, sd, cl), func() modeling.Mesh {
+					if cl == 1 {
+						return extrude.ClosedShape(shape, path)
+					}
+					return extrude.Shape(shape, path)
+				})
+			}
+		}
+	}
 	c.gen("quad", "", func() modeling.Mesh { return primitives.Quad{Width: 2, Depth: 3}.ToMesh() })
 	c.gen("quad", "", func() modeling.Mesh {
 		return primitives.Quad{Width: 2, Depth: 3, UVs: &primitives.StripUVs{Start: vector2.New(0., 0.5), End: vector2.New(1., 0.5), Width: 1}}.ToMesh()
